@@ -694,3 +694,57 @@ def is_none_literal(body, op):
             continue
         return False
     return False
+
+
+def const_int_eval(body, op, depth=0):
+    """evaluate a compile-time integer expression (literals combined with + - * through checked-arithmetic temporaries)"""
+    if not isinstance(op, dict) or depth > 12:
+        return None
+    if op.get("c") == "int":
+        return int(op["v"])
+    p = op_place(op)
+    if p is None:
+        return None
+    df = single_def(body, p["l"])
+    if df is None or df["kind"] != "assign":
+        return None
+    rv = df["rv"]
+    np = fields_only(norm_proj(p["proj"]))
+    if rv["k"] in ("use", "cast") and not np:
+        return const_int_eval(body, rv["ops"][0], depth + 1)
+    if rv["k"] == "bin":
+        a = const_int_eval(body, rv["ops"][0], depth + 1)
+        b = const_int_eval(body, rv["ops"][1], depth + 1)
+        if a is None or b is None:
+            return None
+        op_ = rv["op"].replace("WithOverflow", "").replace("Unchecked", "")
+        if op_ == "Mul":
+            return a * b
+        if op_ == "Add":
+            return a + b
+        if op_ == "Sub":
+            return a - b
+    return None
+
+
+def slice_literals(db, body, sl):
+    """string literals in a slice, including those inside the bodies of closures the slice passes through (depth 1)"""
+    lits = {c["v"] for c in sl.consts if c.get("c") in ("str", "bstr")}
+    for bi, rv in sl.aggs:
+        if rv.get("agg") == "closure":
+            cb = db.body(rv.get("def", ""))
+            if cb is not None:
+                for bl in cb.blocks:
+                    if bl["cleanup"]:
+                        continue
+                    for st in bl["stmts"]:
+                        for o in st["rv"]["ops"]:
+                            if isinstance(o, dict) and o.get("c") in ("str", "bstr"):
+                                lits.add(o["v"])
+                    t = bl["term"]
+                    if t["k"] == "call":
+                        for a in t["args"]:
+                            c = const_of(cb, a)
+                            if c is not None and c.get("c") in ("str", "bstr"):
+                                lits.add(c["v"])
+    return lits
